@@ -1,8 +1,125 @@
 import DarkluaModel.Util.Sexp
-/-! Line-protocol handlers for property C18 (stub: nothing modelled yet). -/
-namespace DarkluaModel.C18
+import DarkluaModel.C18.Lex
+import DarkluaModel.C18.Model
+import DarkluaModel.C18.Spec
+/-!
+Line-protocol handlers for property C18.
 
-def handle (op : String) (_args : List String) : String :=
-  "unknown-op " ++ op
+* `c18.lex <src>`                          → `ok|err <items>` — the reference lexer (Lex.lean) on `src`;
+                                             items in source order, comma separated (or `-`):
+                                             `T:kind:hex:line` code token, `C:hex:line` comment, `E:line` error
+* `c18.comment_text <text>`                → `<hex commentText> <linesCount>`          (Model.commentText)
+* `c18.h18 <text>`                         → `true|false`   (hypothesis of `append_safe_partial`; empty text: `empty`)
+* `c18.append_safe <text> <src>`           → `true|false`   (the statement `AppendSafeAt text src 1`, decided by running the lexer)
+* `c18.remove_comments <src> <pat>*`       → `code=… comments=… lines=… after=n` of `removeComments LitPat.isMatch pats (toFile src)`
+* `c18.remove_spaces <src>`                → same for `removeSpaces`
+* `c18.append <start|end> <text> <src>`    → same for `appendTextComment`
+* `c18.file <src>`                         → same for the unchanged file
+  `pat` = two flag digits (anchored at start, anchored at end) followed by the hex literal, e.g. `10x2d2d21`.
+All byte strings are hex (`x…`). Ill-formed requests answer `bad-request`; a source the reference lexer
+rejects answers `lex-error` for the model ops.
+-/
+namespace DarkluaModel.C18
+open Lex
+
+def kindName : Kind → String
+  | .name => "name" | .keyword => "keyword" | .number => "number" | .string => "string"
+  | .longString => "longString" | .interpSimple => "interpSimple" | .interpBegin => "interpBegin"
+  | .interpMid => "interpMid" | .interpEnd => "interpEnd" | .punct => "punct"
+
+def joinOrDash (xs : List String) : String :=
+  if xs.isEmpty then "-" else ",".intercalate xs
+
+/-- items in source order: `T:kind:hex:line`, `C:hex:line`; a final `E:line` marks a lexical error -/
+def showItems (items : List Item) : String :=
+  (if okOf items then "ok " else "err ")
+    ++ joinOrDash (items.map fun
+        | .tok t => "T:" ++ kindName t.kind ++ ":" ++ bytesToHex t.bytes ++ ":" ++ toString t.line
+        | .com c => "C:" ++ bytesToHex c.bytes ++ ":" ++ toString c.line
+        | .err _ line => "E:" ++ toString line)
+
+/-- Build the token model of a lexed file. A comment is trailing trivia of the previous token when no
+line break separates them (full_moon's rule), otherwise leading trivia of the next token; what is left
+at the end is leading trivia of the final (end-of-file) token. Whitespace trivia are not rebuilt. -/
+def toFileAux : List Item → List Token → List Trivia → Option Nat → Option File
+  | [], acc, pending, cur =>
+    -- a semicolon that ends the file's last statement is a block-level token (`after`)
+    match acc with
+    | semi :: acc' =>
+      if semi.content = [59] ∧ !acc'.isEmpty then some ⟨acc'.reverse, [semi], some ⟨[], cur, pending, []⟩⟩
+      else some ⟨acc.reverse, [], some ⟨[], cur, pending, []⟩⟩
+    | [] => some ⟨[], [], some ⟨[], cur, pending, []⟩⟩
+  | .err _ _ :: _, _, _, _ => none
+  | .tok t :: r, acc, pending, _ =>
+    toFileAux r (⟨t.bytes, some t.line, pending, []⟩ :: acc) [] (some (t.line + countNl t.bytes))
+  | .com c :: r, acc, pending, cur =>
+    match acc, pending, decide (cur = some c.line) with
+    | last :: acc', [], true =>
+      toFileAux r ({ last with trailing := last.trailing ++ [⟨.comment, c.bytes⟩] } :: acc') []
+        (some (c.line + countNl c.bytes))
+    | _, _, _ => toFileAux r acc (pending ++ [⟨.comment, c.bytes⟩]) none
+
+def toFile (src : Bytes) : Option File := toFileAux (lexItems src) [] [] none
+
+def showFile (f : File) : String :=
+  "code=" ++ joinOrDash (f.code.map bytesToHex)
+    ++ " comments=" ++ joinOrDash (f.comments.map bytesToHex)
+    ++ " lines=" ++ joinOrDash (f.codeLines.map fun
+        | some n => toString n
+        | none => "_")
+    ++ " after=" ++ toString (f.after.filter fun t => !t.content.isEmpty).length
+
+def parsePat (s : String) : Option LitPat :=
+  match s.toList with
+  | a :: e :: rest =>
+    match hexToBytes? (String.ofList rest) with
+    | some lit =>
+      if (a = '0' ∨ a = '1') ∧ (e = '0' ∨ e = '1') then some ⟨a = '1', e = '1', lit⟩ else none
+    | none => none
+  | _ => none
+
+def withFile (src : String) (k : File → String) : String :=
+  match hexToBytes? src with
+  | none => "bad-request"
+  | some bytes =>
+    match toFile bytes with
+    | none => "lex-error"
+    | some f => k f
+
+def handle (op : String) (args : List String) : String :=
+  match op, args with
+  | "lex", [src] =>
+    match hexToBytes? src with
+    | some b => showItems (lexItems b)
+    | none => "bad-request"
+  | "comment_text", [text] =>
+    match hexToBytes? text with
+    | some t => bytesToHex (commentText t) ++ " " ++ toString (linesCount (commentText t))
+    | none => "bad-request"
+  | "h18", [text] =>
+    match hexToBytes? text with
+    | some t =>
+      if t.isEmpty then "empty"
+      else if H18 t then "true" else "false"
+    | none => "bad-request"
+  | "append_safe", [text, src] =>
+    match hexToBytes? text, hexToBytes? src with
+    | some t, some s =>
+      if decide (AppendSafeAt t s 1) then "true" else "false"
+    | _, _ => "bad-request"
+  | "file", [src] => withFile src showFile
+  | "remove_spaces", [src] => withFile src fun f => showFile (removeSpaces f)
+  | "remove_comments", src :: pats =>
+    match pats.mapM parsePat with
+    | some ps => withFile src fun f => showFile (removeComments LitPat.isMatch ps f)
+    | none => "bad-request"
+  | "append", [loc, text, src] =>
+    match hexToBytes? text with
+    | none => "bad-request"
+    | some t =>
+      if loc == "start" then withFile src fun f => showFile (appendTextComment .start t f)
+      else if loc == "end" then withFile src fun f => showFile (appendTextComment .end t f)
+      else "bad-request"
+  | _, _ => "unknown-op " ++ op
 
 end DarkluaModel.C18
